@@ -401,6 +401,15 @@ Definition psk_selected (msgs : list bytes) : bool :=
   | None => false
   end.
 Definition selected_psk (offered : option bytes) (msgs : list bytes) : option bytes := if psk_selected msgs then offered else None.
+(* RFC 8446 4.2.8 / 4.2.9: a ServerHello without key_share means PSK-only key establishment (psk_ke): no (EC)DHE secret
+   exists and 7.1 puts Hash.length zero bytes in its place *)
+Definition EXT_KEY_SHARE : nat := 51.
+Definition dhe_selected (msgs : list bytes) : bool :=
+  match the_nth is_server_hello 0 msgs with
+  | Some sh => existsb (Nat.eqb EXT_KEY_SHARE) (server_hello_ext_types sh)
+  | None => false
+  end.
+Definition selected_dhe (shared : option bytes) (msgs : list bytes) : option bytes := if dhe_selected msgs then shared else None.
 (* Early Secret and the salt of the Handshake Secret extraction for a given PSK-in-use *)
 Definition early_secret_of (h : halg) (psk : option bytes) : bytes :=
   HKDF_Extract h (zeros (hlen h)) (match psk with Some p => p | None => zeros (hlen h) end).
@@ -409,7 +418,7 @@ Definition handshake_salt (h : halg) (psk : option bytes) : bytes :=
 
 (* everything RFC 8446 derives from (offered PSK, (EC)DHE, the handshake messages in order) *)
 Record hs13 := {
-  t_psk_selected : bool;
+  t_psk_selected : bool; t_dhe_selected : bool;
   t_offered : sched13;                   (* the schedule started from the OFFERED PSK: binder key and early traffic (4.2.11.2, 4.2.10) *)
   t_hs_salt : bytes;                     (* Derive-Secret(Early Secret, "derived", "") that salts the Handshake Secret *)
   t_sched : sched13;
@@ -425,6 +434,7 @@ Record hs13 := {
 Definition tls13_handshake (h : halg) (keylen : nat) (psk_offered : option bytes) (resumption : bool) (ecdhe : option bytes)
            (binders_len : nat) (msgs : list bytes) : hs13 :=
   let psk := selected_psk psk_offered msgs in
+  let ecdhe := selected_dhe ecdhe msgs in
   let fin := is_type HT_FINISHED in
   let th_ch := transcript_hash h (through_nth (is_type HT_CLIENT_HELLO) 0 msgs) in
   let th_sh := transcript_hash h (through_nth is_server_hello 0 msgs) in
@@ -441,7 +451,7 @@ Definition tls13_handshake (h : halg) (keylen : nat) (psk_offered : option bytes
       | None => [] end in
   let pre_sfin := before_nth fin 0 msgs in
   let pre_cfin := before_nth fin 1 msgs in
-  {| t_psk_selected := psk_selected msgs;
+  {| t_psk_selected := psk_selected msgs; t_dhe_selected := dhe_selected msgs;
      t_offered := so;
      t_hs_salt := handshake_salt h psk;
      t_sched := s;
